@@ -17,7 +17,7 @@ fn lex(base: &Path, rel: &str) -> PathBuf {
 pub fn normalize(thorough: bool) -> Report {
     let maxd = if thorough { 3 } else { 2 };
     let mut r = Report::new(
-        "every package descriptor with up to D dependencies drawn (with repetition, every order) from {libcnb:known/a, libcnb:known-b, libcnb:unknown, relative paths ./x, ../y, a/./b/../c, ../../../up, docker://img, https://h/p, urn:cnb:registry:x, /abs/./p} x id->path maps {complete, missing one} x 2 descriptor locations: the real normalize_package_descriptor replaces each libcnb: reference by the mapped location (missing id => error, never kept or dropped), makes each relative path absolute and dot-free relative to the descriptor's directory, copies every other URI verbatim, keeps count, order, buildpack URI and platform, and the result serialises and parses again; non-trivial = descriptors with at least one libcnb: or relative dependency",
+        "every package descriptor with up to D dependencies drawn (with repetition, every order) from {libcnb:known/a, libcnb:known-b, libcnb:unknown, relative paths ./x, ../y, a/./b/../c, ../../../up, docker://img, https://h/p, urn:cnb:registry:x, /abs/./p} x id->path maps {complete, missing one, empty} x 2 descriptor locations: the real normalize_package_descriptor replaces each libcnb: reference by the mapped location (missing id => error, never kept or dropped), makes each relative path absolute and dot-free relative to the descriptor's directory, copies every other URI verbatim, keeps count, order, buildpack URI and platform, and the result serialises and parses again; non-trivial = descriptors with at least one libcnb: or relative dependency",
         &format!("D <= {maxd} dependencies over 11 URI kinds"),
     );
     let kinds: Vec<&str> = vec!["libcnb:known/a", "libcnb:known-b", "libcnb:unknown", "./x", "../y", "a/./b/../c", "../../../up", "docker://img", "https://h/p", "urn:cnb:registry:x", "/abs/./p"];
@@ -32,13 +32,14 @@ pub fn normalize(thorough: bool) -> Report {
             let deps: Vec<&str> = idx.iter().map(|&i| kinds[i]).collect();
             let toml_src = format!("[buildpack]\nuri = \".\"\n[platform]\nos = \"windows\"\n{}", deps.iter().map(|u| format!("[[dependencies]]\nuri = \"{u}\"\n")).collect::<String>());
             let descriptor: PackageDescriptor = toml::from_str(&toml_src).unwrap();
-            for (mi, map) in [&full, &partial].iter().enumerate() {
+            let empty: BTreeMap<BuildpackId, PathBuf> = BTreeMap::new();
+            for (mi, map) in [&full, &partial, &empty].iter().enumerate() {
                 for loc in &locations {
                     r.evaluations += 1;
                     if deps.iter().any(|u| u.starts_with("libcnb:") || (!u.contains(':') && !u.starts_with('/'))) { r.nontrivial += 1; }
                     let got = pd::normalize_package_descriptor(&descriptor, loc, map);
-                    let missing = deps.iter().any(|u| *u == "libcnb:unknown" || (mi == 1 && *u == "libcnb:known-b"));
-                    let desc = format!("deps={deps:?} map={} location={loc:?}", if mi == 0 { "complete" } else { "missing known-b" });
+                    let missing = deps.iter().any(|u| *u == "libcnb:unknown" || (mi == 1 && *u == "libcnb:known-b") || (mi == 2 && u.starts_with("libcnb:")));
+                    let desc = format!("deps={deps:?} map={} location={loc:?}", ["complete", "missing known-b", "EMPTY"][mi]);
                     match got {
                         Err(e) => { if !missing { r.violation("unexpected_error", "normalisation failed although every id has a location", desc, "Ok".into(), e.to_string()); } }
                         Ok(n) => {
@@ -93,6 +94,11 @@ pub fn package(_thorough: bool) -> Report {
         if complete { map.insert("demo/two".parse().unwrap(), PathBuf::from("/packaged/two")); }
         let input = format!("source {rel_dir}/package.toml (location {li}), map {}", if complete { "complete" } else { "without demo/two" });
         let res = libcnb_package::package::package_composite_buildpack(&src, &dst, &map);
+        if complete && li == 0 {
+            let empty: BTreeMap<BuildpackId, PathBuf> = BTreeMap::new();
+            let d2 = root.join("out/empty-map"); fs::create_dir_all(&d2).unwrap();
+            if libcnb_package::package::package_composite_buildpack(&src, &d2, &empty).is_ok() { r.violation("package_missing_id", "an id without a known location is an error (EMPTY id->path map)", input.clone(), "Err".into(), format!("Ok, package.toml: {:?}", fs::read_to_string(d2.join("package.toml")).unwrap_or_default())); }
+        }
         if !complete { if res.is_ok() { r.violation("package_missing_id", "an id without a known location is an error", input, "Err".into(), "Ok".into()); } continue; }
         if let Err(e) = res { r.violation("package", "packaging a well-formed composite buildpack failed", input, "Ok".into(), e.to_string()); continue; }
         let written: toml::Value = match fs::read_to_string(dst.join("package.toml")).ok().and_then(|s| toml::from_str(&s).ok()) { Some(v) => v, None => { r.violation("package", "the written package.toml is not valid TOML", input, "TOML".into(), "unreadable".into()); continue; } };
